@@ -468,6 +468,30 @@ def run(shard, ctx):
         for n in range(1, 253):
             for rc in RCS:
                 check(ctx, mod, ref, ref.build(rc, 0, 5, 0x24, 0x00, n))
+        # codes, keys and lengths the library's source spells out and the recorded baseline does not (vmon/srcdict.py; nothing on the
+        # unchanged tree): as ASC/ASCQ pair (one 16-bit literal or two 8-bit ones), with every key, format and such lengths
+        from vmon import srcdict
+
+        nov = srcdict.novel_exact()
+        if nov and "env" not in shard:
+            b8 = [v for v in nov if 0 <= v < 256]
+            pairs = {(v >> 8, v & 0xFF) for v in nov if 0 <= v < 65536} | {(a, b) for a in b8[:12] for b in b8[:12]}
+            pairs |= {(a, q) for a in b8[:12] for q in (0x00, 0x01, 0xFF)} | {(a, q) for q in b8[:12] for a in (0x04, 0x29, 0x3A, 0x80)}
+            lens = sorted({18, 252} | {v for v in nov if 8 <= v <= 252})[:8]
+            # pairs made of such literals only: with every key, format and every length
+            strong = sorted({(v >> 8, v & 0xFF) for v in nov if 256 <= v < 65536} | {(a, b) for a in b8[:5] for b in b8[:5]})[:24]
+            for asc, ascq in strong:
+                for rc in RCS:
+                    for key in range(16):
+                        for n in range(8, 253):
+                            check(ctx, mod, ref, ref.build(rc, n & 1, key, asc, ascq, max(n, 14) if rc < 0x72 else n))
+                ctx.count("source_literal_pairs_at_every_length")
+            for asc, ascq in sorted(pairs)[:600]:
+                for rc in RCS:
+                    for key in range(16):
+                        for n in lens:
+                            check(ctx, mod, ref, ref.build(rc, (key + n) & 1, key, asc, ascq, max(n, 14) if rc < 0x72 else n))
+                            ctx.count("conditions_from_source_literals")
                 ctx.add("lengths", n)
         # descriptor format carrying real descriptors (also forwarded sense data of another command, whose own
         # key/ASC/ASCQ must not be taken for the header's)
